@@ -83,6 +83,16 @@ def w_independence(w, cfg):
             claims.append((f"{tag}.too_few_valid_passthrough", z3.And(*[S.eq(o, c) for o, c in zip(r1["out"], cells)]), dict(kw)))
             if r1["lopt"] is not None:
                 claims.append((f"{tag}.too_few_valid_lambda_zero", S.eq(r1["lopt"], 0), dict(kw)))
+            if special is not None:
+                # the same with (some of) the missing cells NaN / inf: every finite cell comes back unchanged, lambda 0
+                cells2 = cells_of(kname, px, nd2, special)
+                fin = [(o, c) for o, c in zip(r2["out"], cells2) if not V.is_nonfinite(c)]
+                bad = any(V.is_nonfinite(o) for o, _ in fin)
+                claims.append((f"{tag}.too_few_valid_passthrough_of_finite_cells",
+                               z3.BoolVal(False) if bad else z3.And(*[S.eq(o, c) for o, c in fin]) if fin else z3.BoolVal(True), dict(kw)))
+                if r2["lopt"] is not None:
+                    claims.append((f"{tag}.too_few_valid_lambda_zero_with_nonfinite_cells",
+                                   z3.BoolVal(False) if V.is_nonfinite(r2["lopt"]) else S.eq(r2["lopt"], 0), dict(kw)))
         else:
             for i in range(n):
                 a, b = r1["out"][i], r2["out"][i]
@@ -151,6 +161,19 @@ def configs(tier):
             if all(valid):
                 continue
             for sp in ("nan", "inf", "-inf"):
+                cf.append({"kernel": kname, "valid": valid, "special": sp, "robust": False, "grid": 2})
+            if valid.count(False) >= 2:
+                # mixed encodings: some missing cells hold the placeholder, the others NaN / inf
+                for sp in ("mix-nan", "mix2-inf") if tier == "quick" else ("mix-nan", "mix2-nan", "mix-inf", "mix2-inf", "mix--inf"):
+                    cf.append({"kernel": kname, "valid": valid, "special": sp, "robust": False, "grid": 2})
+        # fewer valid cells than the kernel needs, missing cells NaN / inf / mixed: finite cells come back unchanged
+        few = [v for v in S.gap_patterns(4 if n == 4 else 5) if sum(v) < MIN_VALID[kname]]
+        for valid in few:
+            if n != 4 and sum(valid) < 3 and tier == "quick":
+                continue
+            for sp in ("nan", "mix-nan", "mix2-inf"):
+                if sp.startswith("mix") and valid.count(False) < 2:
+                    continue
                 cf.append({"kernel": kname, "valid": valid, "special": sp, "robust": False, "grid": 2})
     # the autocorrelation-grid variant: concrete 16-point grids, lc on either side of the threshold
     for lc in (0.7, 0.3):
